@@ -11,7 +11,7 @@ EXTRACTED = ['vdw_radii']
 CASE_IMPORTS = 'From V Require Import C15.Model C10.Model C10.Corr.\nFrom Coq Require Import QArith.'
 RULE = ('systems of 1-3 input molecules (2-16 atoms): residues known to the force field, unknown residues, duplicated '
         'atom names, atoms without name, elements with and without a radius (Zn), missing element, two input molecules with '
-        'identical chain / residue number / name, pre-existing bonds; geometry on a jittered lattice plus directed pairs at '
+        'identical chain / residue number / name, residues that differ only in their insertion code, pre-existing bonds; geometry on a jittered lattice plus directed pairs at '
         'threshold*(1 +- 1e-6) and exactly on a representable threshold; each conjunct of the distance test the only '
         'failing one (block non-bond, H-H, hydrogen to another residue, no radius, too far); fudge in {0.5, 0.9, 1, 1.2, 2}; '
         'name / distance modes on and off. real MakeBonds.run_system; squared distances are exact rationals from the '
@@ -38,6 +38,7 @@ def gen_case(rng):
         resid = rng.choice([1, 1, 5])
         for _ in range(rng.randint(1, 3)):
             resname = rng.choice(['AAA', 'AAA', 'BBB', 'UNK'])
+            icode = rng.choice(['', '', '', 'A', 'B'])       # residues 5 and 5A are different residues
             names = list(BLOCKS.get(resname, (['X1', 'X2', 'HX', 'C1', 'SE', 'P1'], []))[0])
             rng.shuffle(names)
             names = names[:rng.randint(1, len(names))]
@@ -48,7 +49,7 @@ def gen_case(rng):
             for nme in names:
                 el = EL_OF_NAME[nme] if rng.random() < 0.95 else None
                 atoms.append({'name': nme if rng.random() < 0.97 else None, 'element': el, 'resname': resname, 'resid': resid,
-                              'chain': rng.choice(['A', 'A', 'B'])})
+                              'chain': rng.choice(['A', 'A', 'B']), 'icode': icode})
             resid += rng.choice([0, 1, 1]) if rng.random() < 0.9 else 0
         mols.append(atoms)
     flat = [a for m in mols for a in m]
@@ -119,7 +120,8 @@ def run_impl(inp):
     for m in inp['mols']:
         mol = vermouth.molecule.Molecule(force_field=ff)
         for i, a in enumerate(m):
-            attrs = dict(resname=a['resname'], resid=a['resid'], chain=a['chain'], position=np.array(a['xyz'], dtype=float))
+            attrs = dict(resname=a['resname'], resid=a['resid'], chain=a['chain'], position=np.array(a['xyz'], dtype=float),
+                         insertion_code=a.get('icode', ''))
             if a['name'] is not None:
                 attrs['atomname'] = a['name']
             if a['element'] is not None:
@@ -147,7 +149,7 @@ def emit(inp, out):
     resmap = {}
     for mi, m in enumerate(inp['mols']):
         for a in m:
-            key = (mi, a['chain'], a['resid'], a['resname'])
+            key = (mi, a['chain'], a['resid'], a['resname'], a.get('icode', ''))
             rid = resmap.setdefault(key, len(resmap))
             flat.append((rid, a))
     atoms = listlit(list(enumerate(flat)), lambda ia: '{| a_key := %s; a_res := %s; a_resname := %s; a_name := %s; a_element := %s |}' % (
